@@ -8,6 +8,8 @@ import (
 	"path/filepath"
 	"runtime"
 	"sort"
+	"strconv"
+	"strings"
 	"sync"
 	"sync/atomic"
 	"time"
@@ -1013,6 +1015,113 @@ func runMidicatListenTo(c *mon.Ctx, r *mon.Rand, idx int64) {
 		if !round(fmt.Sprintf("out-port closed and opened again at once (cycle %d)", cyc+1), batch, time.Duration(r.Pick(1, 5, 20))*time.Millisecond) {
 			return
 		}
+	}
+	// the ordinary end of a program: the last messages (note offs) are sent and the out-port is closed right away.
+	// They were sent while the port was open and the listener active, so they arrive; the port is then opened again
+	// and the sentinel behind them shows that nothing is still on its way
+	for cyc := 0; cyc < 3; cyc++ {
+		last := []midi.Message{midi.NoteOffVelocity(ch(), d(), d()), midi.ControlChange(ch(), 123, 0), midi.SysEx(r.Bytes7(r.Pick(1, 50)))}[:1+r.Intn(3)]
+		mu.Lock()
+		got = got[:0]
+		mu.Unlock()
+		desc["round"] = fmt.Sprintf("Send x %d, then out.Close() at once (cycle %d)", len(last), cyc+1)
+		var se, ce, oe error
+		if !guarded(c, h, "Send; out.Close", func() {
+			for _, m := range last {
+				if e := snd(m); e != nil && se == nil {
+					se = e
+				}
+			}
+			ce = outs[0].Close()
+		}) {
+			return
+		}
+		if se != nil || ce != nil {
+			c.Violation("mc:send-close", fmt.Sprintf("Send on the open out-port returned %v, the Close that followed returned %v", se, ce), desc, nil, nil)
+			return
+		}
+		c.Count("mc_out_closed_right_after_send", 1)
+		if !guarded(c, h, "out.Open", func() { oe = outs[0].Open() }) {
+			return
+		}
+		if oe != nil {
+			c.Violation("mc:reopen", fmt.Sprintf("out.Open() after Close = %v", oe), desc, nil, nil)
+			return
+		}
+		if e := snd(sentinel); e != nil {
+			c.Violation("mc:send-error", "Send of the sentinel after re-opening failed: "+e.Error(), desc, nil, e.Error())
+			return
+		}
+		select {
+		case <-done:
+		case <-time.After(waitObserve):
+			c.Inconclusive(fmt.Sprintf("ListenTo history %d: sentinel not observed within %v after close and re-open", idx, waitObserve))
+			return
+		}
+		mu.Lock()
+		n := len(got)
+		ok := n == len(last)
+		for k := 0; ok && k < n; k++ {
+			ok = bytes.Equal(got[k], last[k])
+		}
+		mu.Unlock()
+		if !ok {
+			c.Violation("mc:lost-at-close", fmt.Sprintf("%d messages were sent (Send returned nil) while the out-port was open and the listener active, then the out-port was closed at once: %d of them reached the listener before a sentinel sent after re-opening did", len(last), n), desc, len(last), n)
+			return
+		}
+		c.Count("mc_listento_deliveries", int64(n))
+	}
+}
+
+// zombieHelpers counts the child processes of this process that have ended but were never waited for.
+func zombieHelpers() (n int, names []string) {
+	self := os.Getpid()
+	ents, _ := os.ReadDir("/proc")
+	for _, e := range ents {
+		pid, err := strconv.Atoi(e.Name())
+		if err != nil {
+			continue
+		}
+		b, err := os.ReadFile(fmt.Sprintf("/proc/%d/stat", pid))
+		if err != nil {
+			continue
+		}
+		// pid (comm) state ppid ...
+		st := string(b)
+		rp := strings.LastIndexByte(st, ')')
+		lp := strings.IndexByte(st, '(')
+		if rp < 0 || lp < 0 {
+			continue
+		}
+		f := strings.Fields(st[rp+1:])
+		if len(f) < 2 {
+			continue
+		}
+		if ppid, _ := strconv.Atoi(f[1]); ppid == self && f[0] == "Z" {
+			n++
+			if len(names) < 5 {
+				names = append(names, fmt.Sprintf("%d %s", pid, st[lp+1:rp]))
+			}
+		}
+	}
+	return
+}
+
+// CheckHelpersReaped: after a history has closed all its ports, the helper processes it started have ended AND have
+// been waited for. A helper that is killed but never waited for stays a zombie that holds its process id until the
+// program ends: histories of some ten thousand open/close cycles then cannot open a port any more (fork fails).
+func CheckHelpersReaped(c *mon.Ctx, what string) {
+	var n int
+	var names []string
+	for try := 0; try < 100; try++ { // asynchronous reaping is fine: up to 10 s
+		if n, names = zombieHelpers(); n == 0 {
+			break
+		}
+		time.Sleep(100 * time.Millisecond)
+	}
+	c.Count("mc_reaping_checks", 1)
+	if n > 0 {
+		c.Violation("mc:helpers-not-reaped", fmt.Sprintf("%s: all ports are closed, but %d helper processes started by the driver have ended without being waited for (zombies, e.g. %v); every open/close cycle leaves one behind until no process can be started any more", what, n, names), nil, 0, n)
 	}
 }
 
